@@ -162,28 +162,31 @@ def binop_inst(op, lk, ta, rk, tb, tier):
                 solvers=solvers, timeout=300, replay={'kind': 'numeric_op', 'op': op, 'lk': lk, 'ta': ta, 'rk': rk, 'tb': tb}, note='%s<%s> %s %s<%s>' % (lk, ta, op, rk, tb))
 
 
-def lhs_plain_inst(op, ta, tb, tier):
+def lhs_plain_inst(op, ta, tb, tier, rk='tainted'):
     """plain a op tainted<tb> b (BinaryOpWrappedRhs): free function operator op(const T_Lhs&, const tainted_base_impl&)"""
     rt = result_type(op, ta, tb)
     A = '(*$0)'
-    B = operand('tainted', tb, '$1')
+    B = operand(rk, tb, '$1')
     crt = TY[rt][0]
-    cl = [('objs', '__CPROVER_requires(__CPROVER_r_ok($0, sizeof(*$0)) && __CPROVER_r_ok((const struct %s *)$1, sizeof(struct %s)))' % (wrap_struct('tainted', tb), wrap_struct('tainted', tb))),
+    hint = (op in CMP) and rk == 'tainted_volatile'     # comparisons with an operand in sandbox memory yield a tainted_boolean_hint
+    res = '$ret.val' if hint else '$ret.data'
+    cl = [('objs', '__CPROVER_requires(__CPROVER_r_ok($0, sizeof(*$0)) && __CPROVER_r_ok((const struct %s *)$1, sizeof(struct %s)))' % (wrap_struct(rk, tb), wrap_struct(rk, tb))),
           ('plain_expression_defined', '__CPROVER_requires(%s)' % defined(op, ta, tb, A, B)),
-          ('value', '__CPROVER_ensures(%s)' % same('$ret.data', '((%s)(%s %s %s))' % (crt, A, op, B), rt)),
+          ('value', '__CPROVER_ensures(%s)' % same(res, '((%s)(%s %s %s))' % (crt, A, op, B), rt)),
           ('frame', '__CPROVER_assigns()')]
     d1, p1 = operand_decl('plain', ta, 'a')
-    d2, p2 = operand_decl('tainted', tb, 'b')
+    d2, p2 = operand_decl(rk, tb, 'b')
     h = d1 + d2 + '  __auto_type r = $ROOT(&a, (void *)&b);\n'
-    h += '  __CPROVER_assert(__builtin_types_compatible_p(__typeof__(r.data), %s), "C16 result type equals the type of the plain expression");\n' % crt
+    if not hint:
+        h += '  __CPROVER_assert(__builtin_types_compatible_p(__typeof__(r.data), %s), "C16 result type equals the type of the plain expression");\n' % crt
     solvers = ('minisat',)
     if op == '*':
         solvers = ('cadical', 'z3') if max(TY[ta][1], TY[tb][1]) >= 32 else ('z3', 'cadical')
     if op in ('/', '%'):
         solvers = ('z3', 'cvc5', 'minisat')
-    return Inst('c16_%s_plain_%s__t_%s' % (OPN[op], ta.replace(' ', ''), tb.replace(' ', '')), '%s, %s' % (p1, p2), 'a %s b;' % op, cl, h,
+    return Inst('c16_%s_plain_%s__%s_%s' % (OPN[op], ta.replace(' ', ''), 't' if rk == 'tainted' else 'volatile', tb.replace(' ', '')), '%s, %s' % (p1, p2), 'a %s b;' % op, cl, h,
                 leaves=['dynamic_check'], prop=PROP, root_name='operator' + op, tier=tier, pre=PRE_GHOST, solvers=solvers, timeout=200,
-                note='%s %s tainted<%s>' % (ta, op, tb))
+                note='%s %s %s<%s>' % (ta, op, rk, tb))
 
 
 def unary_inst(op, ta, tier):
@@ -222,7 +225,8 @@ def compound_inst(op, lk, ta, tb, tier):
           ('frame', '__CPROVER_assigns(((struct %s *)$this)->data)' % ST)]
     d1, p1 = operand_decl(lk, ta, 'a')
     d2, p2 = operand_decl('plain', tb, 'b')
-    h = d1 + d2 + '  g_noabort = 0; g_backend_nonnull = 0; g_expect_example = 0;\n  void *r = (void *)$ROOT((void *)&a, &b);\n'
+    always_fits = lk == 'tainted' and TY[ta][1] >= 32 and result_type(op, ta, tb) == ta
+    h = d1 + d2 + '  g_noabort = %d; g_backend_nonnull = 0; g_expect_example = 0;\n  void *r = (void *)$ROOT((void *)&a, &b);\n' % (1 if always_fits else 0)
     solvers = ('minisat',) if op not in ('/', '%') else ('z3', 'cvc5', 'minisat')
     if op == '*':
         solvers = ('cadical', 'z3') if TY[ta][1] >= 32 else ('z3', 'cadical')
@@ -256,7 +260,11 @@ def incdec_inst(form, lk, ta, tier):
         expr, call = 'a%s%s;' % (sign, sign), '  struct %s r = $ROOT((void *)&a, 0);\n' % wrap_struct('tainted', ta)
     cl.append(('frame', '__CPROVER_assigns(((struct %s *)$this)->data)' % ST))
     d1, p1 = operand_decl(lk, ta, 'a')
-    h = d1 + '  g_noabort = 0; g_backend_nonnull = 0; g_expect_example = 0;\n' + call
+    # no-abort direction: where the plain result always fits the operand's own representation (>= 32-bit operands kept in application
+    # memory; sandbox cells whose guest type has the application's width) the operator must RETURN for every defined input - a
+    # hardening check that aborts at the end of an unsigned range is not what the plain operator does
+    always_fits = TY[ta][1] >= 32 and (lk == 'tainted' or ta not in GUEST)
+    h = d1 + '  g_noabort = %d; g_backend_nonnull = 0; g_expect_example = 0;\n' % (1 if always_fits else 0) + call
     return Inst('c16_%s_%s_%s' % (form, lk[8:] or 't', ta.replace(' ', '')), p1, expr, cl, h, leaves=['dynamic_check'], prop=PROP,
                 root_name='operator%s%s' % (sign, sign), tier=tier, pre=PRE_GHOST, note='%s on %s<%s>' % (form, lk, ta),
                 may_not_compile=True)
@@ -290,6 +298,11 @@ def units(tier):
         insts.append(lhs_plain_inst('>>', 'int', 'unsigned int', tier))
         insts.append(lhs_plain_inst('<<', 'unsigned int', 'long', tier))
         insts.append(lhs_plain_inst('>>', 'unsigned char', 'unsigned long', tier))
+        # every free "plain OP wrapped" operator (18 templates), and both wrapper kinds on the right
+        for op in ARITH + SHIFT + CMP:
+            insts.append(lhs_plain_inst(op, 'int', 'int', tier))
+        for op in ['>=', '<=', '-', '>>', '==']:
+            insts.append(lhs_plain_inst(op, 'long', 'int', tier, V_))
         for t in ['int', 'unsigned char', 'long']:
             insts.append(unary_inst('-', t, tier))
             insts.append(unary_inst('~', t, tier))
@@ -305,6 +318,9 @@ def units(tier):
         for form in ['preinc', 'predec', 'postinc', 'postdec']:
             insts.append(incdec_inst(form, T_, 'int', tier))
         insts.append(incdec_inst('postdec', T_, 'unsigned char', tier))
+        insts.append(incdec_inst('preinc', T_, 'unsigned int', tier))
+        insts.append(incdec_inst('predec', T_, 'unsigned long', tier))
+        insts.append(incdec_inst('postinc', V_, 'unsigned int', tier))
         insts.append(incdec_inst('preinc', V_, 'long', tier))
         insts.append(incdec_inst('postdec', V_, 'short', tier))
     else:
@@ -354,5 +370,5 @@ ASSUMPTIONS = [
 TRUSTED = ['the plain C operator in the specification has the C++ meaning on the same operand types (integer promotions and usual arithmetic conversions coincide)']
 MANIFEST = {
     'level_text': 'For each instantiated operator the body is proved, over all operand values for which the plain expression is defined, to return a wrapper holding exactly the value of the plain expression on the unwrapped operands, with the result type of the plain expression (static assertion on the emitted result struct); compound assignments and ++/-- are proved to update the operand object exactly as the plain operator would (or to abort when a value stored in sandbox memory does not fit the guest type) and to return the right object/value. Loop-free, full-width symbolic operands: complete per instance.',
-    'level_note': 'Instance family: quick = all operators on int plus mixed-width/signedness pairs and all wrapper combinations; thorough = 7 integer types squared x 16 operators plus float/double samples. 64-bit multiplication is kept to one pair (slow on every back end). Defect fixed in /repo: post-decrement called operator++ (ade0d36).',
+    'level_note': 'Instance family: quick = all operators on int plus mixed-width/signedness pairs and all wrapper combinations; thorough = 7 integer types squared x 16 operators plus float/double samples. 64-bit multiplication is kept to one pair (slow on every back end). Defect fixed in /repo: post-decrement called operator++ (ade0d36). For operands of at least 32 bits kept in application memory (and sandbox cells whose guest type has the application width) the increment, decrement and compound operators are also proved to RETURN for every input on which the plain operator is defined (no-abort direction). All 18 free "plain OP wrapped" operators are instantiated, with both wrapper kinds on the right.',
 }
